@@ -15,9 +15,13 @@
 //! (plain + Markdown on one instance); threads and processes.
 //!
 //! Hypothesis monitors: rule_fun (an uncached per-chunk result is a function of chunk characters,
-//! chunk tokens and configuration: never two different observations for one triple), chunk_fun (…of
-//! chunk characters and configuration alone — H_chunk_fun of C05_refinement), cfg_hash (two
-//! configurations that feed the same bytes to the hasher are equal — C05_cfg_hash).
+//! chunk tokens and configuration: never two different observations for one triple), cfg_hash (two
+//! configurations that make the same calls on the hasher are equal), tok_hash (two chunks whose
+//! tokens make the same calls on the hasher — kinds, spans relative to the chunk start, exactly as
+//! LintGroup::lint feeds them — have the same tokens, and vice versa) — the two injectivity
+//! hypotheses of C05_refinement.  That the pattern lints of a chunk depend on its tokenisation and
+//! not on its characters alone (the former hypothesis H_chunk_fun, false across front-ends) is only
+//! counted: since commit a050122 the tokens are part of the key and nothing depends on it.
 use harper_core::linting::{Lint, LintGroup, LintGroupConfig, LintKind, Linter, PatternLinter, Suggestion};
 use harper_core::patterns::Pattern;
 use harper_core::{Dialect, Dictionary, Document, FstDictionary, Lrc, MergedDictionary, MutableDictionary, Span, Token, TokenStringExt, WordMetadata};
@@ -300,9 +304,64 @@ impl Hasher for RecHasher {
         self.0.push(b'b');
         self.0.push(i);
     }
+    fn write_u16(&mut self, i: u16) {
+        self.0.push(b'1');
+        self.0.extend_from_slice(&i.to_le_bytes());
+    }
+    fn write_u32(&mut self, i: u32) {
+        self.0.push(b'3');
+        self.0.extend_from_slice(&i.to_le_bytes());
+    }
+    fn write_u64(&mut self, i: u64) {
+        self.0.push(b'6');
+        self.0.extend_from_slice(&i.to_le_bytes());
+    }
+    fn write_u128(&mut self, i: u128) {
+        self.0.push(b'8');
+        self.0.extend_from_slice(&i.to_le_bytes());
+    }
+    fn write_usize(&mut self, i: usize) {
+        self.0.push(b'z');
+        self.0.extend_from_slice(&(i as u64).to_le_bytes());
+    }
+    fn write_i8(&mut self, i: i8) {
+        self.0.push(b'B');
+        self.0.push(i as u8);
+    }
+    fn write_i16(&mut self, i: i16) {
+        self.0.push(b'!');
+        self.0.extend_from_slice(&i.to_le_bytes());
+    }
+    fn write_i32(&mut self, i: i32) {
+        self.0.push(b'#');
+        self.0.extend_from_slice(&i.to_le_bytes());
+    }
+    fn write_i64(&mut self, i: i64) {
+        self.0.push(b'^');
+        self.0.extend_from_slice(&i.to_le_bytes());
+    }
+    fn write_i128(&mut self, i: i128) {
+        self.0.push(b'*');
+        self.0.extend_from_slice(&i.to_le_bytes());
+    }
+    fn write_isize(&mut self, i: isize) {
+        self.0.push(b'Z');
+        self.0.extend_from_slice(&(i as i64).to_le_bytes());
+    }
     fn finish(&self) -> u64 {
         0
     }
+}
+/// what LintGroup::lint feeds to the hasher for a chunk's token hash — the very loop of lint_group.rs,
+/// run with the recording hasher: per token its kind, `span.start - chunk_span.start`, `span.end - chunk_span.start`
+fn token_hash_stream(chunk: &[Token], chunk_start: usize) -> Vec<u8> {
+    let mut h = RecHasher(vec![]);
+    for token in chunk {
+        token.kind.hash(&mut h);
+        token.span.start.wrapping_sub(chunk_start).hash(&mut h);
+        token.span.end.wrapping_sub(chunk_start).hash(&mut h);
+    }
+    h.0
 }
 fn hash_stream(c: &LintGroupConfig) -> Vec<u8> {
     let mut h = RecHasher(vec![]);
@@ -347,6 +406,11 @@ struct Obs {
 struct World {
     payloads: Interner<String>,
     toks: Interner<String>,
+    kinds: Interner<String>,
+    tok_streams: Interner<Vec<u8>>,
+    /// tok_hash monitors: hasher input of a chunk's tokens <-> the tokens (kinds, relative spans)
+    tok_of_stream: HashMap<usize, (usize, String, String)>,
+    stream_of_tok: HashMap<usize, (usize, String, String)>,
     cfgs: Interner<String>,
     streams: Interner<Vec<u8>>,
     stream_of_cfg: HashMap<usize, usize>,
@@ -357,6 +421,7 @@ struct World {
     by_chars: HashMap<(Vec<char>, usize), (usize, RelLints, String, String)>,
     chunk_fun_reported: std::collections::HashSet<(Vec<char>, usize)>,
     chunk_fun_unused: u64,
+    tok_hash_reported: std::collections::HashSet<(usize, usize)>,
     /// spell_fun: (dictionary+dialect id, word) -> payload of the lint an uncached SpellCheck builds
     spell_table: HashMap<(usize, Vec<char>), (usize, String)>,
     dicts: Interner<String>,
@@ -375,6 +440,10 @@ impl World {
         World {
             payloads: Interner::new(),
             toks: Interner::new(),
+            kinds: Interner::new(),
+            tok_streams: Interner::new(),
+            tok_of_stream: HashMap::new(),
+            stream_of_tok: HashMap::new(),
             cfgs: Interner::new(),
             streams: Interner::new(),
             stream_of_cfg: HashMap::new(),
@@ -383,6 +452,7 @@ impl World {
             by_chars: HashMap::new(),
             chunk_fun_reported: Default::default(),
             chunk_fun_unused: 0,
+            tok_hash_reported: Default::default(),
             spell_table: HashMap::new(),
             dicts: Interner::new(),
             runs: 0,
@@ -394,7 +464,12 @@ impl World {
 struct ChunkInfo {
     hull: Option<Span>,
     first_tok_start: usize,
+    /// identity of the chunk's tokens as the rules see them: kinds (Debug) and spans relative to the chunk start
     tokid: usize,
+    /// identity of the calls LintGroup::lint makes on the hasher for the token hash of this chunk
+    thid: usize,
+    /// the tokens for the model: "start end kind-identity" with absolute spans
+    tokens: String,
 }
 fn chunk_infos(w: &mut World, doc: &Document) -> Vec<ChunkInfo> {
     doc.iter_chunks()
@@ -402,11 +477,14 @@ fn chunk_infos(w: &mut World, doc: &Document) -> Vec<ChunkInfo> {
             let hull = ch.span();
             let base = hull.map(|h| h.start).unwrap_or(0);
             let mut s = String::new();
+            let mut toks = vec![];
             for t in ch {
                 use std::fmt::Write;
                 let _ = write!(s, "{}-{}:{:?};", t.span.start.wrapping_sub(base), t.span.end.wrapping_sub(base), t.kind);
+                toks.push(format!("{} {} {}", t.span.start, t.span.end, w.kinds.id(&format!("{:?}", t.kind))));
             }
-            ChunkInfo { hull, first_tok_start: ch.as_ptr() as usize, tokid: w.toks.id(&s) }
+            let thid = w.tok_streams.id(&token_hash_stream(ch, base));
+            ChunkInfo { hull, first_tok_start: ch.as_ptr() as usize, tokid: w.toks.id(&s), thid, tokens: toks.join(" ") }
         })
         .collect()
 }
@@ -517,9 +595,10 @@ struct CoreRun {
     hashid: usize,
     lru: LruSim,
     keyids: Interner<(Vec<char>, usize, usize)>,
-    fixed_key: bool,
     /// who populated a cache key: (tokid, cfgid, front-end, text)
     populated: HashMap<usize, (usize, usize, String, String)>,
+    /// who last populated an entry for (chunk characters, config hash), whatever the tokens: (tokid, front-end)
+    populated_chars: HashMap<(Vec<char>, usize), (usize, String)>,
     pending_evict: Vec<usize>,
     evictions: u64,
     dictid: usize,
@@ -538,12 +617,13 @@ impl CoreRun {
         let dict = mk_dict(&h.user_words);
         let dialect = dialect_of(&h.dialect);
         let g = mk_group(&dict, dialect);
-        // spell_fun is a statement about ONE dictionary instance; with the curated dictionary alone all
-        // instances are equal, so observations are shared between histories; a user dictionary gets its own
-        // table per instance (its iteration order differs from instance to instance: FC05a)
+        // spell_fun: the lint an uncached SpellCheck builds is a function of (word, dictionary CONTENTS, dialect) —
+        // observations are shared between all histories (= dictionary instances, each with its own hash seeds)
+        // with the same dialect and user words.  (Before commit 5a329ea a user dictionary's iteration order
+        // leaked into the suggestions — finding FC05a — and the table had to be per instance.)
         w.runs += 1;
-        let dictid = if h.user_words.is_empty() { w.dicts.id(&h.dialect) } else { w.dicts.id(&format!("{}|{:?}|run{}", h.dialect, h.user_words, w.runs)) };
-        let mut r = CoreRun { dict, dialect, g, cfgid: 0, hashid: 0, lru: LruSim::new(lru_cap()), keyids: Interner::new(), fixed_key: std::env::var("C05_KEY").map(|v| v == "fixed").unwrap_or(false), populated: HashMap::new(), pending_evict: vec![], evictions: 0, dictid, user_words: h.user_words.clone() };
+        let dictid = w.dicts.id(&format!("{}|{:?}", h.dialect, h.user_words));
+        let mut r = CoreRun { dict, dialect, g, cfgid: 0, hashid: 0, lru: LruSim::new(lru_cap()), keyids: Interner::new(), populated: HashMap::new(), populated_chars: HashMap::new(), pending_evict: vec![], evictions: 0, dictid, user_words: h.user_words.clone() };
         if let Some(rep) = rep {
             rep.case("N", "ok");
             r.note_cfg(w, Some(rep));
@@ -640,27 +720,45 @@ impl CoreRun {
                         w.table.insert(tkey, Obs { val: val.clone(), fe: fe.to_string(), text: text.to_string() });
                     }
                 }
+                // not a hypothesis of anything since commit a050122 (the tokens are part of the key); counted, as
+                // evidence that the generators do exercise chunks whose lints depend on the tokenisation
                 let ckey = (chars.clone(), self.cfgid);
                 match w.by_chars.get(&ckey) {
-                    Some((t0, v0, fe0, text0)) if *t0 != ci.tokid && *v0 != val => {
-                        if self.fixed_key {
-                            // fixes/F11.diff applied: the tokens are part of the key, H_chunk_fun is not a hypothesis any more
+                    Some((t0, v0, _, _)) if *t0 != ci.tokid && *v0 != val => {
+                        if w.chunk_fun_reported.insert(ckey.clone()) {
                             w.chunk_fun_unused += 1;
-                        } else if w.chunk_fun_reported.insert(ckey.clone()) {
-                            fun_fail.push((
-                                "chunk_fun".into(),
-                                format!(
-                                    "H_chunk_fun is false: chunk characters {:?} tokenised under front-end {} give pattern lints [{}], tokenised under front-end {} give [{}] (same configuration): the chunk cache is observable",
-                                    chars.iter().collect::<String>(), fe0, rel_line(v0), fe, rel_line(&val)
-                                ),
-                                json!({"kind":"history","target":"core","dialect":format!("{:?}", self.dialect),"user_words":self.user_words, "ops":[{"op":"cfg","base":"none","set":serde_json::to_value(&self.g.group.config).unwrap()},{"op":"lint","fe":fe0,"text":text0},{"op":"lint","fe":fe,"text":text}]}),
-                            ));
                         }
                     }
                     Some(_) => {}
                     None => {
                         w.by_chars.insert(ckey, (ci.tokid, val.clone(), fe.to_string(), text.to_string()));
                     }
+                }
+            }
+        }
+        // ---- tok_hash monitors: the hasher input of a chunk's token hash and the chunk's tokens determine each other ----
+        for ci in &with_hull {
+            let two = |fe0: &str, text0: &str| json!({"kind":"history","target":"core","dialect":format!("{:?}", self.dialect),"user_words":self.user_words,"ops":[{"op":"cfg","base":"none","set":serde_json::to_value(&self.g.group.config).unwrap()},{"op":"lint","fe":fe0,"text":text0},{"op":"lint","fe":fe,"text":text}]});
+            match w.tok_of_stream.get(&ci.thid) {
+                Some((t0, fe0, text0)) if *t0 != ci.tokid => {
+                    if w.tok_hash_reported.insert((ci.thid, ci.tokid)) {
+                        fun_fail.push(("tok_hash_collision".into(), format!("two chunks with different tokens (kinds / relative spans) make identical calls on the hasher for their token hash: equal cache keys for every seed (first in front-end {fe0}, now in {fe}; chunk at {:?})", ci.hull.unwrap()), two(fe0, text0)));
+                    }
+                }
+                Some(_) => {}
+                None => {
+                    w.tok_of_stream.insert(ci.thid, (ci.tokid, fe.to_string(), text.to_string()));
+                }
+            }
+            match w.stream_of_tok.get(&ci.tokid) {
+                Some((h0, fe0, text0)) if *h0 != ci.thid => {
+                    if w.tok_hash_reported.insert((ci.thid, ci.tokid)) {
+                        fun_fail.push(("tok_hash_not_function".into(), format!("two chunks with the same tokens (kinds / relative spans) feed different input to the hasher for their token hash (first in front-end {fe0}, now in {fe}; chunk at {:?}): the token hash reads something that is not in the tokens' kinds and relative spans", ci.hull.unwrap()), two(fe0, text0)));
+                    }
+                }
+                Some(_) => {}
+                None => {
+                    w.stream_of_tok.insert(ci.tokid, (ci.thid, fe.to_string(), text.to_string()));
                 }
             }
         }
@@ -677,7 +775,8 @@ impl CoreRun {
                         Some((p0, t0)) if *p0 != pid => fun_fail.push((
                             "spell_not_function".into(),
                             format!("the lint an uncached SpellCheck builds for the word {:?} differs between two computations with the same dictionary and dialect (first seen in {:?})", wd.iter().collect::<String>(), t0),
-                            json!({"kind": "history", "target": "core", "dialect": format!("{:?}", self.dialect), "user_words": self.user_words, "ops": [{"op": "lint", "fe": "plain", "text": t0}, {"op": "lint", "fe": fe, "text": text}]}),
+                            // two computations = two linters (the first may belong to another history): replayable as an `instances` batch
+                            json!({"kind": "instances", "dialect": format!("{:?}", self.dialect), "user_words": self.user_words, "docs": [{"fe": "plain", "text": t0}, {"fe": fe, "text": text}]}),
                         )),
                         Some(_) => {}
                         None => {
@@ -710,12 +809,15 @@ impl CoreRun {
         let mut gi = 0usize;
         for ci in &infos {
             let Some(hull) = ci.hull else {
+                if !ci.tokens.is_empty() {
+                    return Err("probe: a chunk with tokens has no span".into());
+                }
                 fields.push("-".into());
                 continue;
             };
             let chars: Vec<char> = src[hull.start.min(src.len())..hull.end.min(src.len())].to_vec();
-            // the cache key as the code builds it; with C05_KEY=fixed (validation of fixes/F11.diff) the tokens are part of it
-            let kid = self.keyids.id(&(chars.clone(), self.hashid, if self.fixed_key { ci.tokid } else { 0 }));
+            // the cache key as the code builds it: (chunk characters, config hash, token hash), the hashes by the identity of their input
+            let kid = self.keyids.id(&(chars.clone(), self.hashid, ci.thid));
             let evict_before: Vec<String> = std::mem::take(&mut self.pending_evict).iter().map(|k| k.to_string()).collect();
             let missed = miss_g.contains(&ci.first_tok_start);
             hm.push(if missed { 'M' } else { 'H' });
@@ -727,7 +829,7 @@ impl CoreRun {
                 }
             }
             let known = w.table.get(&(chars.clone(), ci.tokid, self.cfgid)).map(|o| rel_line(&o.val));
-            fields.push(format!("{} {} {} {}:{}:{}", hull.start, hull.end, ci.tokid, kid, known.unwrap_or_else(|| "?".into()), evict_before.join(" ")));
+            fields.push(format!("{} {}:{}:{}:{}", kid, ci.thid, known.unwrap_or_else(|| "?".into()), evict_before.join(" "), ci.tokens));
             // diagnosis of a reused/fresh difference on this chunk
             if diff.is_none() && groups_g[gi].iter().map(render).ne(groups_f[gi].iter().map(render)) {
                 let shown = chars.iter().collect::<String>();
@@ -735,11 +837,17 @@ impl CoreRun {
                 diff = Some(match self.populated.get(&kid) {
                     Some((t0, c0, fe0, _)) if !missed && *c0 != self.cfgid => StepDiff { class: "stale_config".into(), what: format!("chunk {shown:?}: entry cached under configuration #{c0} (front-end {fe0}) is served under configuration #{} whose hash input is identical: reused linter emits {a} pattern lints, fresh linter {b}", self.cfgid) },
                     Some((t0, _, fe0, _)) if !missed && *t0 != ci.tokid => StepDiff { class: "stale_tokenisation".into(), what: format!("chunk {shown:?}: entry cached under front-end {fe0} is served under front-end {fe} although the chunk's tokens differ: reused linter emits {a} pattern lints, fresh linter {b}") },
+                    // a hit under a key (characters, config hash, token hash) this linter never populated: the entry of another tokenisation of the same characters
+                    None if !missed => match self.populated_chars.get(&(chars.clone(), self.hashid)) {
+                        Some((t0, fe0)) if *t0 != ci.tokid => StepDiff { class: "stale_tokenisation".into(), what: format!("chunk {shown:?}: entry cached under front-end {fe0} is served under front-end {fe} although the chunk's tokens differ (the token hash is part of the key: regression of F11): reused linter emits {a} pattern lints, fresh linter {b}") },
+                        _ => StepDiff { class: "reused_ne_fresh".into(), what: format!("chunk {shown:?} (front-end {fe}, cache hit): reused linter emits {a} pattern lints, fresh linter {b}") },
+                    },
                     _ => StepDiff { class: "reused_ne_fresh".into(), what: format!("chunk {shown:?} (front-end {fe}, cache {}): reused linter emits {a} pattern lints, fresh linter {b}", if missed { "miss" } else { "hit" }) },
                 });
             }
             if missed {
                 self.populated.insert(kid, (ci.tokid, self.cfgid, fe.to_string(), text.to_string()));
+                self.populated_chars.insert((chars.clone(), self.hashid), (ci.tokid, fe.to_string()));
             }
             gi += 1;
         }
@@ -752,6 +860,7 @@ impl CoreRun {
                 rep.fail(&class, what, input);
             }
             rep.monitor("rule_fun:uncached_chunk_results_observed", (miss_f.len() + miss_g.len()) as u64);
+            rep.monitor("tok_hash:chunks_checked", with_hull.len() as u64);
             let pre_line = lints_line(w, &spre_g, 0).unwrap_or_default();
             let post_line = lints_line(w, &spost_g, 0).unwrap_or_default();
             let case = format!("L|{}|{}|{}:{}|{}|{}", cps(&src), pre_line, if spell_on { 1 } else { 0 }, wfields.join(";"), post_line, fields.join(";"));
@@ -1092,6 +1201,49 @@ fn check_threads(rep: &mut Report, b: &Batch) {
     rep.count_n("threads:documents_x9_threads", b.docs.len() as u64);
     rep.monitor("thread_independence:documents_compared", (b.docs.len() * 9) as u64);
 }
+/// the same documents on several linters, each built from scratch on this thread (own dictionary instances with
+/// their own hash seeds): LintGroup x5 and harper_wasm::Linter x3 (plain / Markdown by the document's front-end)
+fn check_instances(rep: &mut Report, b: &Batch) {
+    let base = b.lint_all();
+    rep.evaluations += b.docs.len() as u64;
+    let mut seen: std::collections::HashSet<String> = Default::default();
+    for k in 1..5 {
+        let r = b.lint_all();
+        for i in 0..base.len().max(r.len()) {
+            if base.get(i) == r.get(i) {
+                continue;
+            }
+            let (class, d) = explain_diff(r.get(i).map(|v| &v[..]).unwrap_or(&[]), base.get(i).map(|v| &v[..]).unwrap_or(&[]), &b.user_words, "instance_dependent");
+            if seen.insert(class.clone()) {
+                let one = Batch { dialect: b.dialect.clone(), user_words: b.user_words.clone(), docs: vec![b.docs[i.min(b.docs.len() - 1)].clone()] };
+                rep.fail(&class, format!("[instances] a document gets different lints from linter #{k} than from linter #0, both built the same way (same dictionary contents, dialect, configuration) on one thread: {d}"), one.to_json("instances"));
+            }
+        }
+    }
+    let wasm_all = || -> Vec<Vec<RL>> {
+        let mut lt = harper_wasm::Linter::new(wasm_dialect(&b.dialect));
+        if !b.user_words.is_empty() {
+            lt.import_words(b.user_words.clone());
+        }
+        b.docs.iter().map(|(fe, text)| guarded(|| wasm_render(&lt.lint(text.clone(), wasm_lang(fe)))).unwrap_or_else(|m| vec![panic_rl(&m)])).collect()
+    };
+    let wbase = wasm_all();
+    for k in 1..3 {
+        let r = wasm_all();
+        for i in 0..wbase.len().max(r.len()) {
+            if wbase.get(i) == r.get(i) {
+                continue;
+            }
+            let (class, d) = explain_diff(r.get(i).map(|v| &v[..]).unwrap_or(&[]), wbase.get(i).map(|v| &v[..]).unwrap_or(&[]), &b.user_words, "instance_dependent");
+            if seen.insert(format!("wasm:{class}")) {
+                let one = Batch { dialect: b.dialect.clone(), user_words: b.user_words.clone(), docs: vec![b.docs[i.min(b.docs.len() - 1)].clone()] };
+                rep.fail(&class, format!("[instances] a document gets different lints from harper_wasm::Linter #{k} than from #0, both built the same way: {d}"), one.to_json("instances"));
+            }
+        }
+    }
+    rep.count_n("instances:documents_x5_linters_x3_wasm_linters", b.docs.len() as u64);
+    rep.monitor("instance_independence:documents_compared", (b.docs.len() * 6) as u64);
+}
 fn child_main(path: &str) {
     hv::common::install_panic_hook();
     let v: Value = serde_json::from_str(&std::fs::read_to_string(path).unwrap_or_default()).unwrap_or(Value::Null);
@@ -1184,6 +1336,29 @@ fn clause_pool(r: &mut Rng) -> Vec<String> {
     for _ in 0..r.range(1, 3) {
         pool.push(r.s(MARKUP_CLAUSES).to_string());
     }
+    // a family of clauses sharing a long prefix and the whole token structure (kinds, metadata, spans) that differ
+    // only in characters far from the start: the casing of a trigger phrase (suggestions copy the casing of the
+    // text they replace), or an unknown word against another of the same length — the key must hold ALL the
+    // characters of the chunk, the token hash alone does not tell such clauses apart
+    if r.chance(1, 2) {
+        let mut prefix = String::new();
+        while prefix.chars().count() < 26 {
+            if !prefix.is_empty() {
+                prefix.push(' ');
+            }
+            prefix.push_str(r.s(gen::COMMON));
+        }
+        let trig = r.s(&["better then that", "more then that", "could of been", "should of gone", "an other thing", "case and point", "baited breath", "on accident", "alot of them"]);
+        for _ in 0..r.range(2, 3) {
+            let cased: Vec<String> = trig.split(' ').map(|wd| recase(r, wd)).collect();
+            pool.push(format!("{prefix} {}", cased.join(" ")));
+        }
+        let unk = r.s(&["qzxv", "wrod", "teh"]);
+        pool.push(format!("{prefix} {unk} {trig}"));
+        let mut other: Vec<char> = unk.chars().collect();
+        other.swap(0, 1);
+        pool.push(format!("{prefix} {} {trig}", other.iter().collect::<String>()));
+    }
     // one misspelling in several casings (the pool is shared by all documents of a history)
     let m = r.s(CASED_MISSPELT);
     for _ in 0..r.range(2, 3) {
@@ -1211,7 +1386,15 @@ fn text_from_pool(r: &mut Rng, pool: &[String]) -> String {
 fn gen_history(r: &mut Rng, w: &World, target: &str) -> History {
     let n = r.range(3, 10);
     let mut ops = vec![];
-    let pool = clause_pool(r);
+    let mut pool = clause_pool(r);
+    // a user dictionary holding more equidistant candidates than SpellCheck shows, and clauses misspelling them:
+    // which candidates are offered, in which order, must not depend on the dictionary instance (FC05a)
+    let user_words: Vec<String> = if r.chance(1, 5) { vec!["zorbla".to_string(), "zorblb".into(), "zorblc".into(), "zorbld".into()] } else { vec![] };
+    if !user_words.is_empty() {
+        for _ in 0..r.range(1, 2) {
+            pool.push(format!("{} {} {}", r.s(gen::COMMON), r.s(&["zorgle", "zorblx", "Zorbl", "zorblaa", "zorble"]), r.s(gen::COMMON)));
+        }
+    }
     let mut cfgs: Vec<CfgSpec> = vec![];
     let mut texts: Vec<String> = vec![];
     for _ in 0..n {
@@ -1234,7 +1417,6 @@ fn gen_history(r: &mut Rng, w: &World, target: &str) -> History {
             ops.push(Op::Lint { fe: fe.to_string(), text });
         }
     }
-    let user_words = if r.chance(1, 5) { vec!["zorbla".to_string(), "zorblb".into(), "zorblc".into(), "zorbld".into()] } else { vec![] };
     History { target: target.into(), dialect: r.s(&["American", "American", "British", "Canadian", "Australian"]).to_string(), user_words, ops }
 }
 fn gen_batch(r: &mut Rng, n: usize, with_user_words: bool) -> Batch {
@@ -1311,6 +1493,7 @@ fn run_input(w: &mut World, rep: &mut Report, v: &Value, out_dir: &str) {
         }
         Some("threads") => check_threads(rep, &Batch::from_json(v)),
         Some("procs") => check_processes(rep, &Batch::from_json(v), out_dir),
+        Some("instances") => check_instances(rep, &Batch::from_json(v)),
         _ => rep.count("corpus:unknown_kind"),
     }
 }
@@ -1322,7 +1505,7 @@ fn main() {
     }
     let (args, corpus) = hv::cli();
     let mut rep = Report::new(&args.out);
-    rep.rule = "histories of (set-config | lint document in front-end L) on ONE long-lived LintGroup: every Lint step compared with a freshly built linter (spans, kinds, messages, suggestions, priorities, order) and replayed by the extracted cache model (emitted lints + hit/miss per chunk, hits observed through a probe rule); documents draw clauses from a per-history pool so that clauses recur at other offsets, in other front-ends (plain, Markdown x2, HTML, Typst, git-commit, Rust/Python comments, literate Haskell), under toggled and re-toggled configurations; one history with > 10 000 distinct clauses (LRU eviction, replayed through an LRU simulation); configurations built to collide in the hasher input (malformed stream); the same histories on harper_wasm::Linter (plain + Markdown on one instance); the same documents on 8 threads (independent linters, and one linter handed round) and in 3 child processes with a user dictionary holding equidistant candidates. non-trivial = distinct (front-end, text, configuration, position in history)".into();
+    rep.rule = "histories of (set-config | lint document in front-end L) on ONE long-lived LintGroup: every Lint step compared with a freshly built linter (spans, kinds, messages, suggestions, priorities, order) and replayed by the extracted cache model (emitted lints + hit/miss per chunk, hits observed through a probe rule); documents draw clauses from a per-history pool so that clauses recur at other offsets, in other front-ends (plain, Markdown x2, HTML, Typst, git-commit, Rust/Python comments, literate Haskell), under toggled and re-toggled configurations; one history with > 10 000 distinct clauses (LRU eviction, replayed through an LRU simulation); configurations built to collide in the hasher input (malformed stream); the same histories on harper_wasm::Linter (plain + Markdown on one instance); the same documents on 8 threads (independent linters, and one linter handed round), in 3 child processes and on 5 + 3 linters built the same way on one thread (LintGroup, harper_wasm::Linter), with a user dictionary holding more equidistant candidates than are shown. non-trivial = distinct (front-end, text, configuration, position in history)".into();
     let mut w = World::new();
     for c in &corpus {
         run_input(&mut w, &mut rep, c, &args.out);
@@ -1358,10 +1541,13 @@ fn main() {
         let b = gen_batch(&mut r, args.scale(12, 40), i % 2 == 1);
         check_processes(&mut rep, &b, &args.out);
     }
+    for i in 0..args.scale(2, 6) {
+        let b = gen_batch(&mut r, args.scale(8, 30), i % 2 == 0);
+        check_instances(&mut rep, &b);
+    }
     rep.extra.insert("distinct_chunk_triples_observed".into(), json!(w.table.len()));
     rep.extra.insert("distinct_configurations".into(), json!(w.cfgs.map.len()));
-    if w.chunk_fun_unused > 0 {
-        rep.monitor("chunk_fun:false_but_no_longer_a_hypothesis(fixed key)", w.chunk_fun_unused);
-    }
+    rep.extra.insert("distinct_token_hash_inputs".into(), json!(w.tok_streams.map.len()));
+    rep.count_n("chunks_whose_pattern_lints_depend_on_the_tokenisation(same characters, same configuration)", w.chunk_fun_unused);
     rep.finish();
 }
